@@ -12,7 +12,6 @@ import (
 type Locker = sync.Locker
 type Once = sync.Once
 type WaitGroup = sync.WaitGroup
-type Pool = sync.Pool
 type Cond = sync.Cond
 
 var NewCond = sync.NewCond
@@ -206,5 +205,44 @@ func (m *Map) Range(f func(k, v any) bool) {
 			return
 		}
 		pt("Range.next")
+	}
+}
+
+// Pool replaces sync.Pool.  sync.Pool promises nothing about which object Get returns; a
+// last-in-first-out free list is one of its behaviours and a deterministic one.  Get is a
+// scheduling point before it takes an object; Put is one AFTER it has given the object
+// back: from there on somebody else may be handed the same object, which is exactly the
+// window in which a caller that still uses what it has put back goes wrong.
+type Pool struct {
+	New  func() any
+	mu   sync.Mutex
+	free []any
+}
+
+func (p *Pool) Get() any {
+	if s := vsched.Active(); s != nil && !s.Aborted() {
+		s.YieldIf("sync.Pool", "Pool.Get")
+	}
+	p.mu.Lock()
+	var x any
+	if n := len(p.free); n > 0 {
+		x, p.free = p.free[n-1], p.free[:n-1]
+	}
+	p.mu.Unlock()
+	if x == nil && p.New != nil {
+		x = p.New()
+	}
+	return x
+}
+
+func (p *Pool) Put(x any) {
+	if x == nil {
+		return
+	}
+	p.mu.Lock()
+	p.free = append(p.free, x)
+	p.mu.Unlock()
+	if s := vsched.Active(); s != nil && !s.Aborted() {
+		s.YieldIf("sync.Pool", "Pool.Put")
 	}
 }
